@@ -25,7 +25,9 @@ RULE = ("cases: (a) byte strings as .json/.yaml/.yml files, (b) arbitrary JSON v
         "two operations sharing an operationId) derive the same class name, in both orders, (f) a complete sweep of 32 stress "
         "strings (long repetitive runs with missing terminators: unclosed braces, slashes, dots, underscores, case alternations, "
         "pointer escapes, media-type parameters, 4000 characters) x every string leaf and every name-carrying key (81 slots) of a "
-        "carrier document - what makes a backtracking pattern or a character loop run away. Non-trivial = input parsed to a mapping holding "
+        "carrier document - what makes a backtracking pattern or a character loop run away, (g) a complete value matrix (2 820 "
+        "documents): the keywords whose value the document validator leaves untyped (default, example, enum members, const) x 22 "
+        "schema kinds x 20 junk values of every JSON type x position (model property, component, query parameter). Non-trivial = input parsed to a mapping holding "
         "openapi+info+paths and either produced >=1 diagnostic or reached rendering; distinct = hash of the input.")
 ASSUMPTIONS = [
     "post-hooks are disabled, so an ERROR-level diagnostic always means the document itself was rejected",
@@ -342,6 +344,63 @@ def collision_docs():
     return [{"kind": "doc", "doc": d, "yaml": False, "cli": False, "fow": False, "meta": "none", "collision": tag} for tag, d in out]
 
 
+# ------------------------------------------------------------------------------------------------ value matrix
+# the keywords whose value the document validator does not type (default, example, enum members, const) x every schema kind x
+# junk of every JSON type x three positions: each reaches a conversion routine written for one type only
+MATRIX_KINDS = {
+    "string": {"type": "string"}, "date": {"type": "string", "format": "date"}, "datetime": {"type": "string", "format": "date-time"},
+    "uuid": {"type": "string", "format": "uuid"}, "binary": {"type": "string", "format": "binary"}, "integer": {"type": "integer"},
+    "number": {"type": "number"}, "boolean": {"type": "boolean"}, "str_enum": {"type": "string", "enum": ["a", "b"]},
+    "int_enum": {"type": "integer", "enum": [1, 2]}, "untyped_enum": {"enum": ["a", "b"]}, "const_str": {"const": "x"}, "const_int": {"const": 1},
+    "array": {"type": "array", "items": {"type": "string"}}, "object": {"type": "object", "properties": {"q": {"type": "string"}}},
+    "union": {"anyOf": [{"type": "integer"}, {"type": "string"}]}, "typelist": {"type": ["string", "null"]},
+    "ref_enum_wrapper": {"allOf": [{"$ref": "#/components/schemas/ZzEnum"}]}, "ref_model_wrapper": {"allOf": [{"$ref": "#/components/schemas/ZzModel"}]},
+    "ref_int_wrapper": {"oneOf": [{"$ref": "#/components/schemas/ZzInt"}]}, "any": {}, "null": {"type": "null"},
+}
+MATRIX_VALUES = [None, True, False, 0, 1, -1, 1.5, 1e308, "", "x", "1", "true", "2020-01-02", [], ["a"], [1], [[]], {}, {"a": 1},
+                 {"$ref": "#/components/schemas/ZzModel"}]
+MATRIX_POSITIONS = ("property", "component", "parameter")
+
+
+def matrix_cases():
+    out = []
+    for k in MATRIX_KINDS:
+        for vi in range(len(MATRIX_VALUES)):
+            for kw in ("default", "example"):
+                for pos in MATRIX_POSITIONS:
+                    out.append({"kind": "matrix", "schema": k, "keyword": kw, "value": vi, "pos": pos})
+    for vi in range(len(MATRIX_VALUES)):
+        for pos in MATRIX_POSITIONS:
+            for kw in ("enum_member", "enum_member_typed", "const_value"):
+                out.append({"kind": "matrix", "schema": "-", "keyword": kw, "value": vi, "pos": pos})
+    return out
+
+
+def _matrix_doc(case):
+    v = copy.deepcopy(MATRIX_VALUES[case["value"]])
+    kw = case["keyword"]
+    if kw == "enum_member":
+        sch = {"enum": ["a", v]}
+    elif kw == "enum_member_typed":
+        sch = {"type": "string", "enum": ["a", "b", v]}
+    elif kw == "const_value":
+        sch = {"const": v}
+    else:
+        sch = {**copy.deepcopy(MATRIX_KINDS[case["schema"]]), kw: v}
+    comps = {"ZzEnum": {"type": "string", "enum": ["a", "b"]}, "ZzInt": {"type": "integer"},
+             "ZzModel": {"type": "object", "properties": {"m": {"type": "string"}}}}
+    paths = {}
+    if case["pos"] == "property":
+        comps["Holder"] = {"type": "object", "properties": {"p": sch, "keep": {"type": "string"}}}
+    elif case["pos"] == "component":
+        comps["Target"] = sch
+        comps["Holder"] = {"type": "object", "properties": {"p": {"$ref": "#/components/schemas/Target"}}}
+    else:
+        paths = {"/items": {"get": {"operationId": "listItems", "parameters": [{"name": "p", "in": "query", "schema": sch}],
+                                    "responses": {"200": {"description": "ok"}}}}}
+    return {"openapi": "3.1.0", "info": {"title": "t", "version": "1"}, "paths": paths, "components": {"schemas": comps}}
+
+
 ATHERIS_RUNS = int(os.environ.get("VERIF_C06_ATHERIS_RUNS", "40000"))
 
 
@@ -350,7 +409,7 @@ def case_timeout(case):
 
 
 def sweep(tier):
-    cases = cyclic_docs() + collision_docs() + stress_cases()
+    cases = cyclic_docs() + collision_docs() + stress_cases() + matrix_cases()
     if tier == "thorough":
         # coverage-guided campaigns (atheris/libFuzzer on the loader + parser): 8 from an empty corpus, 8 from a seeded one
         for k in range(16):
@@ -440,6 +499,10 @@ def run(case, ctx):
     if case.get("kind") == "stress":
         ctx.label("stress_string")
         case = {"kind": "doc", "doc": _stress_doc(case), "yaml": False, "cli": False, "fow": False, "meta": "none", "stress": [case["slot"], case["string"]]}
+    if case.get("kind") == "matrix":
+        ctx.label("value_matrix")
+        case = {"kind": "doc", "doc": _matrix_doc(case), "yaml": False, "cli": False, "fow": False, "meta": "none",
+                "matrix": [case["schema"], case["keyword"], case["value"], case["pos"]]}
     if case.get("collision"):
         ctx.label("class_name_collision")
     src, doc = _source(case)
